@@ -741,11 +741,82 @@ func txTypestate(c *kit.Ctx, f *kit.Func, r *kit.Rule) {
 		}
 		return nil
 	}
+	// deferred clean-up closures that roll back under a condition
+	// (`defer func() { if !committed { tx.Rollback() } }()`, `if err != nil { … }` on a
+	// named result) are evaluated at every exit under the exit's own state
+	deferred := map[string]*kit.Func{}
 	st.OnNode = func(n ast.Node, s kit.S) []kit.S {
-		if d, ok := n.(*ast.DeferStmt); ok && isRollback(f, d.Call) {
-			s = s.Set("deferrb", "1")
+		if d, ok := n.(*ast.DeferStmt); ok {
+			if isRollback(f, d.Call) {
+				s = s.Set("deferrb", "1")
+			} else if lf := f.CalleeFunc(d.Call); lf != nil && lf.Lit != nil && lf.Body != nil {
+				has := false
+				for _, call := range lf.AllCalls(false) {
+					if kit.CallIs(info, call, qRollback) {
+						has = true
+					}
+				}
+				if has {
+					k := strconv.Itoa(int(d.Pos()))
+					deferred[k] = lf
+					s = s.Set("deferlit", k)
+				}
+			}
 		}
 		return []kit.S{s}
+	}
+	// the named error result, if any (what a deferred closure sees as the outcome)
+	var errResult types.Object
+	if f.Type.Results != nil {
+		for _, fl := range f.Type.Results.List {
+			for _, nm := range fl.Names {
+				if o := info.Defs[nm]; o != nil && isErrorType(o.Type()) {
+					errResult = o
+				}
+			}
+		}
+	}
+	// deferredRolls: does the deferred closure roll back when the function leaves in state s
+	// with result classification rn ("always"/"never"/"sometimes")
+	deferredRolls := func(lf *kit.Func, s kit.S, rn string) string {
+		var inits []kit.S
+		if errResult != nil {
+			switch rn {
+			case "nil":
+				inits = []kit.S{s.Set("nn:"+kit.VarID(errResult), "F")}
+			case "nonnil":
+				inits = []kit.S{s.Set("nn:"+kit.VarID(errResult), "T")}
+			default:
+				inits = []kit.S{s.Set("nn:"+kit.VarID(errResult), "F"), s.Set("nn:"+kit.VarID(errResult), "T")}
+			}
+		} else {
+			inits = []kit.S{s}
+		}
+		yes, no := 0, 0
+		for _, in := range inits {
+			ds := &kit.Std{F: lf}
+			ds.OnCall = func(call *ast.CallExpr, n ast.Node, x kit.S) []kit.S {
+				if kit.CallIs(info, call, qRollback) {
+					return []kit.S{x.Set("drb", "1")}
+				}
+				return nil
+			}
+			dres := f.Prog.Graph(lf).Run(in.Del("drb"), ds.Client())
+			for _, e := range dres.Exits {
+				if e.State.Get("drb") == "1" {
+					yes++
+				} else {
+					no++
+				}
+			}
+		}
+		switch {
+		case yes > 0 && no == 0:
+			return "always"
+		case yes == 0:
+			return "never"
+		}
+		return "sometimes"
 	}
 	res := f.Prog.Graph(f).Run(kit.NewS().Set("tx", "none"), st.Client())
 	if res.Overflow {
@@ -773,6 +844,18 @@ func txTypestate(c *kit.Ctx, f *kit.Func, r *kit.Rule) {
 			order = append(order, e.Return)
 		}
 		rn := st.ReturnsNil(e.Return, e.State)
+		if lf := deferred[e.State.Get("deferlit")]; lf != nil && (tx == "begun" || tx == "beginpending" || tx == "commitfailed") {
+			switch deferredRolls(lf, e.State, rn) {
+			case "always":
+				tx = "rolledback"
+			case "sometimes":
+				if v.bad == "" {
+					v.bad = "the deferred clean-up rolls the open transaction back only under a condition that is not decided at this exit"
+					v.exit = e
+				}
+				continue
+			}
+		}
 		switch tx {
 		case "begun", "beginpending":
 			if e.State.Get("deferrb") == "1" {
